@@ -87,6 +87,11 @@ def measure(scn, H, stats):
             m['F_SETPWM'] += 1
         elif rec['op'] == 'set_load' and rec['exc'] is None:
             m['F_SETLOAD'] += 1
+        elif rec['op'] == 'branch_off' and rec['exc'] is None:
+            m['F_BRANCH'] += 1
+        elif rec['op'] == 'other_powertrain':
+            m['F_OTHER_POWERTRAIN' if rec['exc'] is None
+              else 'other_powertrain_raised'] += 1
         elif rec['op'] == 'export' and rec.get('io', {}).get('fired'):
             m['F_IO'] += 1
     for b in H.get('build', []):
